@@ -87,6 +87,15 @@ def run(prog, tier, res):
     # audited implications: each one that was needed had its premises checked (they would be OPEN otherwise)
     for k in sorted(used):
         res.hit(R7)
+    if tier == "thorough":
+        # self-check of the engine on functions with a known verdict (scratch copy of /repo + selftest/controls)
+        R8 = res.rule("C01.R8", "engine controls: every `*_panics` control function keeps an undischarged obligation (soundness of the obligation engine on adversarial idioms)", 30)
+        from .. import controls
+        n_c, unsound, weak = controls.run(quiet=True)
+        res.hit(R8, n_c - len(unsound))
+        for name in unsound:
+            res.violate(R8, "selftest/controls/verif_controls.rs::" + name, "control", "the obligation engine discharged every obligation of `%s`, which can panic: the engine is unsound on this idiom" % name, "", kind="engine-unsound")
+        res.extra["engine_controls"] = {"functions": n_c, "unsound": unsound, "imprecise": weak}
     res.trusted = ["rustc MIR (dev profile: overflow/bounds Asserts are explicit)",
                    "documented panic conditions of the std functions listed in oblig.CALL_RULES; audited-total list panicfree.TOTAL (%d entries)" % len(panicfree.TOTAL),
                    "allocation failure is outside the property"] + \
